@@ -13,6 +13,8 @@ import Nitime.Model.C05
 import Nitime.Lemmas.C05Grid
 import Nitime.Lemmas.C05Hist
 import Nitime.Lemmas.Parseval
+import Nitime.Lemmas.CohSession
+import Nitime.Generated.SetInput
 
 namespace Nitime.C05.Props
 open Nitime Nitime.C05 Nitime.Generated
@@ -624,5 +626,81 @@ theorem shared_user_dict_counterexample_mixed (spec : Two.Cls → Two.MSpec)
   rcases h1 : (spec .sparse) with ⟨k, f, d⟩
   cases k <;> cases f <;>
     simp [Two.run, Two.step, Two.init, Two.fillFs, Two.getFs, hk.1, hk.2, h1]
+
+/-! ## Failure paths (round 2, class L7): `set_input` calls that are refused, constructors that raise
+
+`Generated.SetInput` holds, for CoherenceAnalyzer and SparseCoherenceAnalyzer, the body of `set_input` as the ORDER of
+{possible raise, `reset()`, `self.input = …`, `self.method['Fs'] = …`} read off the current source, and for the
+constructors the order of {possible raise, write into `self.method`}.  The session theorems of `Lemmas/CohSession`
+need "every possible raise precedes every write" (`checksFirst`) and "an accepted call re-targets" (`Retargets`): both
+are proved here about the GENERATED bodies, so an edit that writes `method['Fs']` before a check (seeded change C05-10),
+or swaps, checks and rolls back only the input (C09-10), re-opens them. -/
+section FailurePaths
+open Nitime.CohSession
+
+theorem CoherenceAnalyzer_set_input_checks_before_writes : checksFirst SetInput.coherence = true := by decide
+
+theorem SparseCoherenceAnalyzer_set_input_checks_before_writes : checksFirst SetInput.sparse = true := by decide
+
+theorem CoherenceAnalyzer_set_input_retargets : Retargets SetInput.coherence := by
+  intro new s
+  cases hf : s.fsFromInput <;> simp [SetInput.coherence, exec, retarget, pick, hf]
+
+theorem SparseCoherenceAnalyzer_set_input_retargets : Retargets SetInput.sparse := by
+  intro new s
+  cases hf : s.fsFromInput <;> simp [SetInput.sparse, exec, retarget, pick, hf]
+
+/-- a `set_input` that raises leaves input, rate slot and memoised vector as they were (both classes) -/
+theorem refused_set_input_leaves_state_unchanged (new : Inp) (sv : Option Inp) (s : St) :
+    ((exec true new SetInput.coherence sv s).2 = true → (exec true new SetInput.coherence sv s).1 = s) ∧
+    ((exec true new SetInput.sparse sv s).2 = true → (exec true new SetInput.sparse sv s).1 = s) :=
+  ⟨refused_exec_unchanged new _ sv s CoherenceAnalyzer_set_input_checks_before_writes,
+   refused_exec_unchanged new _ sv s SparseCoherenceAnalyzer_set_input_checks_before_writes⟩
+
+/-- **CoherenceAnalyzer, any session** of accepted / refused `set_input` calls, `reset()`s and reads, from the
+constructor on: every `.frequencies` is the class's vector at the rate of the input actually held (or at the `'Fs'` the
+caller fixed), and the input held is the last one that was not refused -/
+theorem CoherenceAnalyzer_session_frequencies_follow_held_input (G : ℚ → List ℚ) (inp : Inp) (userFs : Option ℚ)
+    (evs : List Ev) :
+    run G SetInput.coherence (init inp userFs) evs = spec G (hasCheck SetInput.coherence) userFs inp evs :=
+  session_reads_from_init G _ CoherenceAnalyzer_set_input_checks_before_writes CoherenceAnalyzer_set_input_retargets inp userFs evs
+
+/-- **SparseCoherenceAnalyzer, any session**: with the generated `get_freqs` term and the band selection, every
+`.frequencies` read is the band of the TRUE grid `k·Fs/NFFT` at the rate of the input actually held -/
+theorem SparseCoherenceAnalyzer_session_frequencies_are_true_band_of_held_input (pi : ℚ) (N : ℕ) (lb : ℚ) (ub : Option ℚ)
+    (inp : Inp) (userFs : Option ℚ) (evs : List Ev) :
+    run (fun fs => sliceBand (eval Grids.SparseCoherenceAnalyzer_frequencies pi fs N) lb ub) SetInput.sparse (init inp userFs) evs
+      = spec (fun fs => sliceBand (trueOneSided fs N) lb ub) (hasCheck SetInput.sparse) userFs inp evs := by
+  rw [session_reads_from_init _ _ SparseCoherenceAnalyzer_set_input_checks_before_writes SparseCoherenceAnalyzer_set_input_retargets]
+  congr 1
+  funext fs
+  rw [SparseCoherenceAnalyzer_frequencies_is_true_grid]
+
+-- non-vacuity: 100 Hz input, a refused 250 Hz one (today's body has no guard: it is accepted), reads before and after
+example : run (fun fs => trueOneSided fs 4) SetInput.coherence (init ⟨100, 0⟩ none)
+    [.readFreq, .setInput ⟨250, 1⟩ true, .readFreq, .reset, .readFreq]
+      = [([0, 25, 50], 0), ([0, 125/2, 125], 1), ([0, 125/2, 125], 1)] := by
+  decide +kernel
+
+/-- contrast, the order of seeded change C05-10 (write `method['Fs']`, check, reset + swap): old input, refused axis -/
+theorem write_before_check_counterexample :
+    run (fun fs => trueOneSided fs 4) [.writeFs .new, .check, .reset, .setInput .new] (init ⟨100, 0⟩ none)
+      [.setInput ⟨250, 1⟩ true, .readFreq] = [([0, 125/2, 125], 0)] ∧
+    spec (fun fs => trueOneSided fs 4) true none ⟨100, 0⟩ [.setInput ⟨250, 1⟩ true, .readFreq] = [([0, 25, 50], 0)] := by
+  decide +kernel
+
+/-- the constructors: every possible raise precedes every write into `self.method` (which is the caller's own dict for
+a class that keeps it) -/
+theorem constructors_check_before_dict_writes :
+    cChecksFirst SetInput.coherenceCtor = true ∧ cChecksFirst SetInput.sparseCtor = true ∧
+    cChecksFirst SetInput.seedCtor = true := by decide
+
+/-- a refused CoherenceAnalyzer construction (the class keeps the caller's dict) has not written into that dict -/
+theorem CoherenceAnalyzer_refused_ctor_leaves_callers_dict :
+    (ctorExec true (Methods.spec .coherence).keeps SetInput.coherenceCtor false).2 = true →
+    (ctorExec true (Methods.spec .coherence).keeps SetInput.coherenceCtor false).1 = false :=
+  refused_ctor_leaves_callers_dict _ _ _ constructors_check_before_dict_writes.1
+
+end FailurePaths
 
 end Nitime.C05.Props
